@@ -485,6 +485,10 @@ func (g *c04gen) rhsOf(t *c04ty, d int) *c04rhs {
 			} else {
 				base = g.sliceExpr(t, d-1)
 			}
+			if g.r.chance(25) {
+				// append(base, src...)
+				return &c04rhs{K: "appendslice", T: t, E: base, E2: g.rvNonNil(t, d-1)}
+			}
 			n := 1 + g.r.intn(2)
 			if g.r.chance(10) {
 				n = 0
